@@ -715,7 +715,7 @@ func (e *Env) RResolvePath() {
 	e.checkReturns("R-RESOLVE", c, fd, "resolvePath", []wantReturn{{
 		"the vendor-stripped resolver answer, unless a declaring position (not forced), a resolver error, or the local path",
 		`stripVendor(` + ask + `)`,
-		`f.Resolver != nil && (force || !avoid[parentName+"."+parentField]) && (force || parentFieldType == "Expr") && res1(` + ask + `) == nil && (f.ResolveLocalPath || stripVendor(` + ask + `) != stripVendor(f.Path))`,
+		`f.Resolver != nil && (force || !avoid[parentName+"."+parentField]) && (force || parentFieldType == "Expr") && res1(` + ask + `) == nil && (f.ResolveLocalPath || stripVendor(` + ask + `) != stripVendor(f.Path))`, "", "",
 	}}, `f.Resolver != nil && (force || !avoid[parentName+"."+parentField]) && (force || parentFieldType == "Expr") && res1(`+ask+`) != nil`)
 	e.stripVendorAnchored()
 }
@@ -914,66 +914,98 @@ func (e *Env) resolveIdentReturns() {
 	check(load.PkgGotypes, "gotypes", []wantReturn{
 		{"a selector whose X is a package name resolves to the imported package's path",
 			`r.Uses[` + selX + `].(*types.PkgName).Imported().Path()`,
-			`r.Uses != nil && ok(parent.(*SelectorExpr)) && parentField == "Sel" && ok(` + selX + `) && ok(r.Uses[` + selX + `]) && ok(r.Uses[` + selX + `].(*types.PkgName))`},
+			`r.Uses != nil && ok(parent.(*SelectorExpr)) && parentField == "Sel" && ok(` + selX + `) && ok(r.Uses[` + selX + `]) && ok(r.Uses[` + selX + `].(*types.PkgName))`, "", ""},
 		{"any other used identifier resolves to its declaring package, except struct fields and universe objects",
 			`r.Uses[id].Pkg().Path()`,
-			`r.Uses != nil && !(ok(parent.(*SelectorExpr)) && parentField == "Sel") && ok(r.Uses[id]) && !(ok(r.Uses[id].(*types.Var)) && r.Uses[id].(*types.Var).IsField()) && r.Uses[id].Pkg() != nil`},
+			`r.Uses != nil && !(ok(parent.(*SelectorExpr)) && parentField == "Sel") && ok(r.Uses[id]) && !(ok(r.Uses[id].(*types.Var)) && r.Uses[id].(*types.Var).IsField()) && r.Uses[id].Pkg() != nil`, "", ""},
 	}, `r.Uses == nil`)
 	check(load.PkgGoast, "goast", []wantReturn{
 		{"the Sel of a selector whose X is an undeclared identifier resolves through the file's import table",
 			`r.imports(file)[` + selX + `.Name]`,
-			`res1(r.imports(file)) == nil && ok(parent.(*SelectorExpr)) && parentField == "Sel" && ok(` + selX + `) && ` + selX + `.Obj == nil && ok(r.imports(file)[` + selX + `.Name])`},
+			`res1(r.imports(file)) == nil && ok(parent.(*SelectorExpr)) && parentField == "Sel" && ok(` + selX + `) && ` + selX + `.Obj == nil && ok(r.imports(file)[` + selX + `.Name])`, "",
+			// a missing name reads as "", which is the default answer
+			`res1(r.imports(file)) == nil && ok(parent.(*SelectorExpr)) && parentField == "Sel" && ok(` + selX + `) && ` + selX + `.Obj == nil`},
 	}, `res1(r.imports(file)) != nil`)
 }
 
 type wantReturn struct {
 	what, result, cond string
+	// err: "" — the error result is nil; "!nil" — any non-nil error; otherwise the exact expression
+	err string
+	// alt: a second condition under which returning the result is the same function (e.g. without
+	// the presence test of a map read whose zero value is the default answer)
+	alt string
 }
 
-// checkReturns: fd, as a function of its inputs, returns (first result) either "" or one of the
-// specified expressions, each exactly under its specified condition (propositional equivalence
-// of path conditions), non-empty results come with a nil error, and an error is returned exactly
-// under errCond.
+// checkReturns: fd, as a function of its inputs, returns either (zero, nil) or one of the
+// specified (result, error) pairs, each exactly under its specified condition (propositional
+// equivalence of path conditions; locals are replaced by their definitions and parentheses are
+// canonical, so names, nesting and the order of tests do not matter). errCond, when not empty,
+// specifies when (zero, some error) is returned.
 func (e *Env) checkReturns(rule string, c *schema.Ctx, fd *ast.FuncDecl, label string, wants []wantReturn, errCond string) {
+	e.checkReturnsZ(rule, c, fd, label, `""`, wants, errCond)
+}
+
+func (e *Env) checkReturnsZ(rule string, c *schema.Ctx, fd *ast.FuncDecl, label, zero string, wants []wantReturn, errCond string) {
 	if fd == nil || fd.Body == nil {
 		e.Run.Violation(rule, label+" exists", "", "missing")
 		return
+	}
+	if errCond != "" {
+		wants = append(wants, wantReturn{what: "an error is returned exactly when specified", result: zero, err: "!nil", cond: errCond})
 	}
 	rets, ok := returnsOf(c, fd)
 	if !ok {
 		e.Run.Undecided(rule, label+" returns", e.Prog.Pos(fd.Pos()), "a return statement's path condition could not be computed")
 		return
 	}
-	conds := map[string][]string{}
+	conds := make([][]string, len(wants))
 	for _, r := range rets {
 		if len(r.results) != 2 {
 			e.Run.Undecided(rule, label+" returns", e.Prog.Pos(r.pos), "bare return")
 			return
 		}
-		known := r.results[0] == `""`
-		for _, w := range wants {
-			if r.results[0] == w.result {
-				known = true
-			}
+		r0, r1 := canonText(r.results[0]), canonText(r.results[1])
+		if r0 == zero && r1 == "nil" {
+			continue // the default answer: returned whenever nothing else is
 		}
-		e.Run.Check(rule, label+": every returned path is \"\" or a specified expression", e.Prog.Pos(r.pos), known,
-			"returns "+r.results[0]+", which is none of the specified results")
-		if r.results[0] != `""` {
-			conds[r.results[0]] = append(conds[r.results[0]], paren(r.cond))
-			e.Run.Check(rule, label+": a path is returned with a nil error", e.Prog.Pos(r.pos), r.results[1] == "nil", "a non-empty path is returned together with "+r.results[1])
-		} else if r.results[1] != "nil" {
-			eq, dec := equivalentGuards(r.cond, errCond)
-			if !dec {
-				e.Run.Undecided(rule, label+": error return", e.Prog.Pos(r.pos), "condition not propositional: "+r.cond)
-			} else {
-				e.Run.Check(rule, label+": an error is returned exactly when specified", e.Prog.Pos(r.pos), eq, "error returned under `"+r.cond+"`, specified `"+errCond+"`")
+		match := -1
+		for i, w := range wants {
+			if r0 != canonText(w.result) {
+				continue
 			}
+			switch w.err {
+			case "":
+				if r1 != "nil" {
+					continue
+				}
+			case "!nil":
+				if r1 == "nil" {
+					continue
+				}
+			default:
+				if r1 != canonText(w.err) {
+					continue
+				}
+			}
+			match = i
+			break
+		}
+		e.Run.Check(rule, label+": every return is the default or a specified (result, error) pair", e.Prog.Pos(r.pos), match >= 0,
+			"returns ("+r0+", "+r1+"), which is none of the specified pairs")
+		if match >= 0 {
+			cd := r.cond
+			if cd == "" {
+				cd = "true"
+			}
+			conds[match] = append(conds[match], "("+cd+")")
 		}
 	}
-	for _, w := range wants {
-		got := strings.Join(conds[w.result], " || ")
+	for i, w := range wants {
+		got := strings.Join(conds[i], " || ")
+		pair := "(" + w.result + ", " + map[string]string{"": "nil", "!nil": "an error"}[w.err] + w.err + ")"
 		if got == "" {
-			e.Run.Violation(rule, label+": "+w.what, e.Prog.Pos(fd.Pos()), "no return of "+w.result)
+			e.Run.Violation(rule, label+": "+w.what, e.Prog.Pos(fd.Pos()), "no return of "+pair)
 			continue
 		}
 		eq, dec := equivalentGuards(got, w.cond)
@@ -981,7 +1013,10 @@ func (e *Env) checkReturns(rule string, c *schema.Ctx, fd *ast.FuncDecl, label s
 			e.Run.Undecided(rule, label+": "+w.what, e.Prog.Pos(fd.Pos()), "condition not propositional: "+got)
 			continue
 		}
+		if !eq && w.alt != "" {
+			eq, _ = equivalentGuards(got, w.alt)
+		}
 		e.Run.Check(rule, label+": "+w.what, e.Prog.Pos(fd.Pos()), eq,
-			"`"+w.result+"` is returned under `"+got+"`; specified: `"+w.cond+"`")
+			pair+" is returned under `"+got+"`; specified: `"+w.cond+"`")
 	}
 }
